@@ -272,9 +272,10 @@ def run_dt(src, search):
             return ("ok", None, score, stats.get("eval"))
         out = []
         for k, v in choices.items():
+            raw = str(k)
             if k.functor == "choice":
                 k = k.args[2]
-            out.append((str(k), int(v)))
+            out.append((str(k), int(v), raw))
         return ("ok", out, score, stats.get("eval"))
     try:
         return pl.with_timeout(go, 60)
@@ -396,8 +397,9 @@ def work_dt(item):
         r = run_dt(src, search)
         info = {"raw": r}
         if r[0] == "ok" and r[1] is not None:
-            names = [k for k, _ in r[1]]
-            vals = [v for _, v in r[1]]
+            names = [x[0] for x in r[1]]
+            vals = [x[1] for x in r[1]]
+            raws = [x[2] for x in r[1]]
             info["names"], info["vals"] = names, vals
             al = []
             for nm in names:
@@ -438,7 +440,9 @@ def work_dt(item):
                 info["ad_partially_grounded"] = any(len([i for i in g if i in pos]) >= 2 and any(i not in pos for i in g)
                                                     for g in sem.groups)
                 u = {(neg, a): Fraction(v) for neg, a, v in p["utils"]}
-                info["own"] = [u.get((True, nm[2:])) if nm.startswith("\\+") else u.get((False, nm)) for nm in names]
+                # `key in utilities` is asked with the RAW key: a choice(N,i,head) term is never a utility key
+                info["own"] = [None if raw != nm else (u.get((True, nm[2:])) if nm.startswith("\\+") else u.get((False, nm)))
+                               for nm, raw in zip(names, raws)]
                 if search == "local":
                     info["near_tie"] = local_mirror_near_tie(table, info["own"], k)
         res["runs"][search or "exhaustive"] = info
@@ -810,6 +814,11 @@ WITNESS_DT = [
     {"facts": [], "pads": [], "decs": ["d0"], "dads": [],
      "rules": [("r0", [(False, "d0")]), ("r2", [(False, "r0")]), ("r4", [(False, "r0"), (True, "r2")])],
      "utils": [(False, "r4", "2")]},
+    # decision AD with a body of which a single head is grounded: no constraint, local search runs; its key is a
+    # choice(N,i,head) term, which is never `in utilities` (initial strategy 0 although utility(c1) > 0)
+    {"facts": [("f0", "0.5")], "pads": [], "decs": ["d0"], "dads": [{"heads": ["c0", "c1"], "body": [(False, "d0")]}],
+     "rules": [("r0", [(False, "c1"), (False, "f0")])],
+     "utils": [(False, "c1", "5"), (False, "d0", "-1"), (False, "r0", "2")]},
     # no decision is relevant
     {"facts": [("f0", "0.3")], "pads": [], "decs": ["d0"], "dads": [], "rules": [("r0", [(False, "f0")])],
      "utils": [(False, "r0", "2")]},
